@@ -185,7 +185,13 @@ def run_job(job):
                 assert ar.get("gs_eps", e_eff) == e_eff, "async episode number differs from its index in the stacked graph"
                 for le in compiled.log_for_run(ar["log"], cfg, rngidx):
                     ref[le["kind"]].append(le)
-            t = compiled.project_run(st, cfg, gs0, hist, log, gs_f, rngidx, f"{tagm}/r{ri}", rec=rec, ref=ref, xover=rn.xover)
+            # a connection with a trainable (zero-order-hold) delay distribution: the schedule hands over the extended window, the step sees what
+            # ZohApply leaves of it for the delay the distribution holds (RexRun)
+            train = {}
+            for c_ in cfg["conns"]:
+                if "train" in c_:
+                    train.setdefault(c_["in"], {})[c_["out"]] = dict(d=int(c_["train"].get("d0", c_["train"]["min"])), W=int(c_["window"]))
+            t = compiled.project_run(st, cfg, gs0, hist, log, gs_f, rngidx, f"{tagm}/r{ri}", rec=rec, ref=ref, xover=rn.xover, train=train or None)
             if opts.get("skip"):
                 t["skip"] = list(opts["skip"])
             out["runs"].append(t)
